@@ -128,7 +128,8 @@ def run_job(job):
         t.loc[s['id'], 'Beads ID'] = s['beads']
         samples.append(t)
     stt = pd.concat(samples) if samples else W.samples_table([], 'A', style=cfg.get('padded', False))
-    inp = os.path.join(d, 'experiment.xlsx')
+    stem = 'growth.2024.06' if cfg.get('dotted') else 'experiment'      # a name with dots besides the extension's
+    inp = os.path.join(d, stem + '.xlsx')
     with pd.ExcelWriter(inp, engine='openpyxl') as wr:
         W.instruments.loc[inst_rows].reset_index().to_excel(wr, sheet_name='Instruments', index=False)
         bt.reset_index().rename(columns={'index': 'ID'}).to_excel(wr, sheet_name='Beads', index=False)
@@ -169,10 +170,11 @@ def run_job(job):
             setattr(FlowCal.excel_ui, n, saved[n])
     if steps != run_program(cfg['hist']):
         labels.append(('run-steps-out-of-documented-order', repr(steps)))
-    real_out = outp or os.path.join(d, 'experiment_output.xlsx')
+    real_out = outp or os.path.join(d, stem + '_output.xlsx')
     if not os.path.exists(real_out):
+        found = sorted(f for f in os.listdir(d) if f.endswith('.xlsx'))
         shutil.rmtree(d, ignore_errors=True)
-        return [('output-workbook-missing', real_out)]
+        return [('output-workbook-missing', '%s; workbooks present: %r' % (os.path.basename(real_out), found))]
     labels += check_output(real_out, W.instruments.loc[inst_rows].reset_index(), bt.reset_index(), stt.reset_index(), cfg['hist'])
     if cfg['plot']:
         want = []
@@ -257,7 +259,7 @@ def workbook_configs(chk):
             samples.append(dict(id='S%03d' % (k + 1), inst=ins, row=row, variant=i + k, frac=[0.3, 0.85, 0.5][(i + k) % 3],
                                 beads=bid[0] if bid else None))
         cfgs.append(dict(instruments=sorted(set(insts)), beads=beads, samples=samples, plot=(i % 2 == 1), hist=(i % 4 in (1, 2)),
-                         explicit_out=(i % 3 == 0), cli=(i % 4 == 2), padded=(i % 4 == 1)))     # padded: ' FL1-H  Units ' headers
+                         explicit_out=(i % 3 == 0), cli=(i % 4 == 2), padded=(i % 4 == 1), dotted=(i % 2 == 0)))     # padded: ' FL1-H  Units ' headers
     return cfgs
 
 
